@@ -46,6 +46,5 @@ m['verified']={'baseline_tests_on_changed_tree':tests,'demo_exit_changed_tree':d
                'checks_run':chk.strip(),'commands':['git apply patch.diff (scratch worktree of /repo HEAD)','cmake+ctest (451 tests)','run.sh <changed>, run.sh /repo','VERIF_REPO=<changed> ./check <PROP> (quick)']}
 json.dump(m,open(p,'w'),indent=1)
 PY
-rm -f /verif/replays/*.json 2>/dev/null
 git -C /repo worktree remove --force "$WT" 2>/dev/null; rm -rf "$VB"
 echo "RESULT $NAME done"
